@@ -302,8 +302,17 @@ func RunCommand(cmdArgs []string, runDir string) (map[string]interface{}, error)
 	verifEmit("cmd_started", cmd.Process.Pid)
 
 	// TODO: duplicate stdout, stderr
+	// Drain both pipes concurrently. Reading one pipe to EOF before touching
+	// the other deadlocks as soon as the command fills the pipe buffer of the
+	// stream that is not being read yet.
+	var stderr []byte
+	stderrDone := make(chan struct{})
+	go func() {
+		defer close(stderrDone)
+		stderr, _ = io.ReadAll(stderrPipe)
+	}()
 	stdout, _ := io.ReadAll(stdoutPipe)
-	stderr, _ := io.ReadAll(stderrPipe)
+	<-stderrDone
 
 	retVal := waitErrToExitCode(cmd.Wait())
 
